@@ -39,12 +39,22 @@ fn gen_opt_oct(rng: &mut Rng, max: usize) -> Option<Hx> {
 fn gen_u(rng: &mut Rng, bytes: usize) -> u64 {
     // every leading-byte pattern: small, sign-bit set, all ones, random
     let max = if bytes == 8 { u64::MAX } else { (1u64 << (8 * bytes)) - 1 };
-    match rng.below(6) {
+    match rng.below(8) {
         0 => 0,
         1 => max,
         2 => max >> 1,
         3 => (max >> 1) + 1,
         4 => rng.next_u64() & 0xff,
+        5 | 6 => {
+            // the limits of every *shorter* encoding (the wire uses the fewest bytes that hold the
+            // value, so these are the values whose first wire byte is 80, 7f, ff, 00 at each width):
+            // +-2^(8k-1), 2^(8k-1)-1, 2^(8k)-1, -2^(8k-1)-1 as two's complement of this width
+            let k = rng.range(1, bytes) as u32;
+            let b: u128 = 1u128 << (8 * k - 1);
+            let m: u128 = u128::from(max) + 1;
+            let c = [b, b - 1, (b << 1) - 1, m - b, m.wrapping_sub(b + 1), b + 1];
+            (*rng.pick(&c) & u128::from(max)) as u64
+        }
         _ => rng.next_u64() & max,
     }
 }
@@ -130,12 +140,18 @@ pub fn gen_msg(rng: &mut Rng, kind: usize, max_entries: usize) -> RMsg {
 
 pub fn gen_rfile(rng: &mut Rng, max_entries: usize) -> RFile {
     if max_entries >= 12 && rng.chance(1, 400) {
-        // counts that cross 2^8: a file of 255..258 messages, or a list with that many (small) entries
+        // counts that cross 2^8: a file of 255..258 messages, or a list with that many (small) entries ...
+        // ... and, more rarely, 2^16 (which also makes the message / the file longer than 2^16 bytes)
+        // (not in the unoptimised build of the simulator, where generating and cross-checking a
+        // megabyte takes the better part of a minute)
+        let big = rng.chance(1, 6) && !cfg!(debug_assertions);
         if rng.chance(1, 2) {
-            let n = rng.range(255, 258);
+            // (a file of 2^16 messages is a megabyte that every oracle walks several times: the
+            // message count only crosses 2^12 here, the long-run byte fault reaches further)
+            let n = if big { rng.range(4_094, 4_098) } else { rng.range(255, 258) };
             return RFile { msgs: (0..n).map(|_| gen_msg(rng, 1, 0)).collect() };
         }
-        let n = rng.range(255, 258);
+        let n = if big { rng.range(65_534, 65_538) } else { rng.range(255, 258) };
         let mut m = gen_msg(rng, 2, 0);
         if let RBody::GetList { entries, .. } = &mut m.body {
             *entries = (0..n)
@@ -443,6 +459,10 @@ pub fn encode_file(f: &RFile, rng: &mut Rng, prof: &Profile) -> (Vec<u8>, Vec<Ms
 /// the one-byte CRC field `62 xx` is a legal encoding (otherwise that path is reached for one
 /// message in 256 only).
 fn force_short_crc(m: &mut RMsg, ms: &mut MsgScn) -> bool {
+    if ms.body.len() > 2048 {
+        // the search recomputes the checksum of the whole message up to 65536 times
+        return false;
+    }
     let sites = walk_sites(&ms.body);
     let Some(tid) = sites.iter().find(|s| s.depth == 1) else { return false };
     if tid.ty != TY_OCT || tid.len < 2 || m.tid.len() != tid.len {
@@ -466,6 +486,10 @@ fn force_short_crc(m: &mut RMsg, ms: &mut MsgScn) -> bool {
 /// Same search, for an exact checksum value of a special shape (all zeros, all ones, a zero
 /// high or low byte, escape look-alikes), kept in the ordinary two-byte field.
 fn force_crc_value(m: &mut RMsg, ms: &mut MsgScn, target: u16) -> bool {
+    if ms.body.len() > 2048 {
+        // the search recomputes the checksum of the whole message up to 65536 times
+        return false;
+    }
     let sites = walk_sites(&ms.body);
     let Some(tid) = sites.iter().find(|s| s.depth == 1) else { return false };
     if tid.ty != TY_OCT || tid.len < 2 || m.tid.len() != tid.len {
@@ -1103,7 +1127,15 @@ pub fn gen_file_scn(rng: &mut Rng, _tier: Tier, prop: &str, em: &Emphasis) -> Fi
                 4 => vec![*rng.pick(&[0x71u8, 0x72, 0x76, 0x77, 0x7f, 0xf1])],
                 5 => vec![0x00, 0x00, 0x63, 0x00],
                 6 => rng.bytes_range(1, 3),
-                _ => vec![0x76, 0x01, 0x62, 0x00, 0x62, 0x00, 0x72, 0x63, 0x02, 0x01, 0x71, 0x01, 0x63, 0x00, 0x00, 0x00],
+                _ => {
+                    // a small *valid* message (close response): the run is hundreds or thousands of
+                    // well-formed messages - whatever is done once per message adds up
+                    let tid = rng.bytes_range(0, 3);
+                    let mut b = vec![0x76, 0x01 + tid.len() as u8];
+                    b.extend_from_slice(&tid);
+                    b.extend_from_slice(&[0x62, 0x00, 0x62, 0x00, 0x72, 0x63, 0x02, 0x01, 0x71, 0x01]);
+                    crate::scn::seal_msg(&MsgScn { body: Hx(b), seal: Seal::Good })
+                }
             };
             let count = *rng.pick(&[40usize, 300, 1200, 6000, 6000, 20_000, 70_000]) / pattern.len().max(1) + 1;
             let at = match rng.below(4) {
